@@ -16,6 +16,7 @@ import (
 	"os/exec"
 	"path/filepath"
 	"reflect"
+	"runtime"
 	"sort"
 	"strconv"
 	"strings"
@@ -98,19 +99,42 @@ func c01Draw(src *c01Src, tok string) {
 	src.calls = 0
 }
 
-func c01Ctx(tok string) (context.Context, bool) {
+// c01Ctx builds the context of an op: none = the entry point without a context parameter, live = Background,
+// deadline = a deadline an hour ahead, cancelmid = the request itself cancels the context while it runs,
+// done = cancelled before the call, expired = a deadline an hour back. No verdict depends on the wall clock.
+func c01Ctx(tok string) (context.Context, context.CancelFunc, bool) {
 	switch c01KV(tok, "ctx") {
 	case "none":
-		return nil, false
+		return nil, func() {}, false
 	case "live":
-		return context.Background(), true
+		return context.Background(), func() {}, true
+	case "deadline":
+		ctx, cancel := context.WithDeadline(context.Background(), time.Now().Add(time.Hour))
+		return ctx, cancel, true
+	case "cancelmid":
+		ctx, cancel := context.WithCancel(context.Background())
+		return ctx, cancel, true
 	case "done":
 		ctx, cancel := context.WithCancel(context.Background())
 		cancel()
-		return ctx, true
+		return ctx, cancel, true
+	case "expired":
+		ctx, cancel := context.WithDeadline(context.Background(), time.Now().Add(-time.Hour))
+		return ctx, cancel, true
 	}
 	panic("verif c01: bad ctx " + tok)
 }
+
+// c01TNil is an error type whose nil pointer is a NON-nil error value (the classic typed-nil): the breaker
+// must treat it like any other error (`err == nil` is false) and hand it back unchanged.
+type c01TNil struct{}
+
+func (*c01TNil) Error() string { return "c01 typed nil" }
+
+var (
+	c01ErrTNil   error = (*c01TNil)(nil)
+	c01PanicErrV error = errors.New("c01 request panics with an error value")
+)
 
 func c01RetClass(err error) string {
 	switch err {
@@ -124,8 +148,6 @@ func c01RetClass(err error) string {
 		return "unavail"
 	case c01ErrF:
 		return "fbres"
-	case context.Canceled:
-		return "ctx"
 	}
 	return "other"
 }
@@ -161,8 +183,14 @@ func c01Req(outcome string, runs *int) func() error {
 			return ErrServiceUnavailable
 		case "wbrk":
 			return c01ErrWB
+		case "tnil":
+			return c01ErrTNil
 		case "panic":
 			panic(c01Panic)
+		case "panicerr":
+			panic(c01PanicErrV)
+		case "goexit":
+			runtime.Goexit()
 		}
 		panic("verif c01: bad outcome " + outcome)
 	}
@@ -179,6 +207,8 @@ func c01Want(outcome string) error {
 		return ErrServiceUnavailable
 	case "wbrk":
 		return c01ErrWB
+	case "tnil":
+		return c01ErrTNil
 	}
 	return nil
 }
@@ -435,8 +465,50 @@ func c01Start(cfg verifh.Cfg) (func(op []string) string, func()) {
 		get("")
 	}
 
+	pfSeq := 0
 	step := func(op []string) string {
 		name := ""
+		if named && op[0] == "parfirst" {
+			// concurrent FIRST use of a name (breakers.go GetBreaker): g goroutines, released together, look the same
+			// fresh name up and make k successful calls each through the package-level Do; r rounds with a new name each.
+			// Whatever the schedule, all of them must have been handed the one breaker of that name and that breaker must
+			// have recorded all g*k calls (a second breaker created by a racing first use would swallow some of them).
+			g, k, rounds := verifh.Atoi(c01KV(op[1], "g")), verifh.Atoi(c01KV(op[2], "k")), verifh.Atoi(c01KV(op[3], "r"))
+			maxDistinct, minRecorded := 0, int64(g*k)
+			for rd := 0; rd < rounds; rd++ {
+				pfSeq++
+				rn := fmt.Sprintf("c01-%d-parfirst-%d", sec, pfSeq)
+				got := make([]Breaker, g)
+				start := make(chan struct{})
+				var wg sync.WaitGroup
+				for i := 0; i < g; i++ {
+					wg.Add(1)
+					go func(i int) {
+						defer wg.Done()
+						<-start
+						got[i] = GetBreaker(rn)
+						for j := 0; j < k; j++ {
+							_ = Do(rn, func() error { return nil })
+						}
+					}(i)
+				}
+				close(start)
+				wg.Wait()
+				distinct := map[Breaker]bool{}
+				for _, b := range got {
+					distinct[b] = true
+				}
+				if len(distinct) > maxDistinct {
+					maxDistinct = len(distinct)
+				}
+				var sum int64
+				c01Unwrap(GetBreaker(rn)).stat.Reduce(func(b *bucket) { sum += b.Sum })
+				if sum < minRecorded {
+					minRecorded = sum
+				}
+			}
+			return fmt.Sprintf("calls=%d maxdistinct=%d minrecorded=%d", g*k, maxDistinct, minRecorded)
+		}
 		if named && op[0] != "t+" {
 			name = c01KV(op[len(op)-1], "name")
 			op = op[:len(op)-1]
@@ -490,7 +562,8 @@ func c01Start(cfg verifh.Cfg) (func(op []string) string, func()) {
 		case "do":
 			e := get(name)
 			entry, outcome := op[1], op[2]
-			ctx, useCtx := c01Ctx(op[3])
+			ctx, cancel, useCtx := c01Ctx(op[3])
+			defer cancel()
 			c01Draw(e.src, op[4])
 			reqRuns, fbRuns := 0, 0
 			fbArg := "-"
@@ -505,11 +578,19 @@ func c01Start(cfg verifh.Cfg) (func(op []string) string, func()) {
 			}
 			var err error
 			panicked := "0"
-			func() {
+			// the call runs in a goroutine of its own so that a request ending in runtime.Goexit can be told apart
+			// from a return and from a panic (the goroutine ends, not completed, no panic value)
+			completed := false
+			done := make(chan struct{})
+			go func() {
+				defer close(done)
 				defer func() {
 					if p := recover(); p != nil {
+						completed = true
 						if s, ok := p.(string); ok && s == c01Panic {
 							panicked = "1"
+						} else if pe, ok := p.(error); ok && pe == c01PanicErrV {
+							panicked = "err"
 						} else {
 							panicked = "other"
 						}
@@ -519,9 +600,23 @@ func c01Start(cfg verifh.Cfg) (func(op []string) string, func()) {
 				if named {
 					rn = realName(name)
 				}
-				err = c01Do(e.cb, rn, entry, ctx, useCtx, c01Req(outcome, &reqRuns), fb)
+				inner := c01Req(outcome, &reqRuns)
+				req := inner
+				if c01KV(op[3], "ctx") == "cancelmid" {
+					req = func() error { cancel(); return inner() }
+				}
+				err = c01Do(e.cb, rn, entry, ctx, useCtx, req, fb)
+				completed = true
 			}()
+			<-done
+			if !completed {
+				panicked = "exit"
+			}
 			ret := c01RetClass(err)
+			if useCtx && reqRuns == 0 && err != nil && err == ctx.Err() {
+				// the context's own error, by identity (context.Canceled resp. context.DeadlineExceeded)
+				ret = "ctx"
+			}
 			if reqRuns > 0 && err != nil && err == c01Want(outcome) {
 				// the request's own error came back unchanged (identity, not errors.Is): named after the outcome,
 				// so that the request's own ErrServiceUnavailable ("brk") differs from a rejection ("unavail")
@@ -534,7 +629,8 @@ func c01Start(cfg verifh.Cfg) (func(op []string) string, func()) {
 				e.src.calls, c01State(e.gb)) + tail(e)
 		case "allow":
 			e := get(name)
-			ctx, useCtx := c01Ctx(op[1])
+			ctx, cancel, useCtx := c01Ctx(op[1])
+			defer cancel()
 			c01Draw(e.src, op[2])
 			cb := e.cb
 			if named {
@@ -554,10 +650,10 @@ func c01Start(cfg verifh.Cfg) (func(op []string) string, func()) {
 			case ErrServiceUnavailable:
 				v = "reject"
 				p = nil
-			case context.Canceled:
-				v = "ctx"
-				p = nil
 			default:
+				if useCtx && err == ctx.Err() {
+					v = "ctx"
+				}
 				p = nil
 			}
 			e.promises = append(e.promises, p)
@@ -613,7 +709,16 @@ func c01RaceParent(t *testing.T) {
 	// re-derived below from the detector's log, so only other failures of the child are fatal here
 	if out, err := cmd.CombinedOutput(); err != nil &&
 		(!strings.Contains(string(out), "race detected during execution of test") || strings.Contains(string(out), "panic:")) {
-		t.Fatalf("verif c01: race child failed: %v\n%s", err, out)
+		// the reason first AND last: the check keeps only the tail of a failing harness's output
+		var why []string
+		for _, l := range strings.Split(string(out), "\n") {
+			if strings.HasPrefix(l, "fatal error:") || strings.HasPrefix(l, "panic:") || strings.HasPrefix(l, "race:") ||
+				strings.Contains(l, "ThreadSanitizer") || strings.HasPrefix(l, "runtime:") || strings.HasPrefix(l, "SIG") ||
+				strings.HasPrefix(l, "[signal") {
+				why = append(why, l)
+			}
+		}
+		t.Fatalf("verif c01: race child failed: %v\n%s\nverif c01: race child failed because: %s", err, out, strings.Join(why, " | "))
 	}
 	total, known := 0, 0
 	var unknown []string
@@ -737,11 +842,15 @@ func (g *c01G) draw() int64 {
 }
 
 func (g *c01G) ctx() string {
-	switch g.r.Intn(12) {
+	switch g.r.Intn(16) {
 	case 0:
-		return "done"
+		return g.r.PickS("done", "done", "expired")
 	case 1, 2:
 		return "live"
+	case 3:
+		return "deadline"
+	case 4:
+		return "cancelmid"
 	}
 	return "none"
 }
@@ -754,7 +863,7 @@ func (g *c01G) call(outcome string, u int64) {
 func (g *c01G) callE(entry, outcome, ctx string, u int64) {
 	g.pickName()
 	g.emit(fmt.Sprintf("do %s %s ctx=%s u=%d", entry, outcome, ctx, u))
-	if ctx != "done" {
+	if ctx != "done" && ctx != "expired" {
 		g.calls++
 	}
 }
@@ -768,7 +877,7 @@ func (g *c01G) allow(u int64, resolve string) {
 	if g.name != "" {
 		g.allowsBy[g.name] = g.allows
 	}
-	if ctx != "done" {
+	if ctx != "done" && ctx != "expired" {
 		g.calls++
 	}
 	switch resolve {
@@ -779,7 +888,7 @@ func (g *c01G) allow(u int64, resolve string) {
 
 func (g *c01G) outcome(failPct int) string {
 	if g.r.Intn(100) < failPct {
-		return g.r.PickS("erru", "erru", "erru", "panic", "erra", "brk", "wbrk")
+		return g.r.PickS("erru", "erru", "erru", "erru", "panic", "panicerr", "goexit", "tnil", "erra", "erra", "brk", "wbrk")
 	}
 	return g.r.PickS("ok", "ok", "ok", "erra")
 }
@@ -838,6 +947,9 @@ func c01Gen(r *verifh.Rng) []verifh.Section {
 			g.names = []string{"a", "b", "c"}[:r.Range(2, 3)]
 			g.allowsBy = map[string]int{}
 			for j := 0; j < r.Range(30, verifh.Scale(80, 160)); j++ {
+				if j%16 == 3 {
+					g.ops = append(g.ops, fmt.Sprintf("parfirst g=%d k=%d r=%d", r.Range(2, 8), r.Range(1, 3), r.Range(4, 12)))
+				}
 				switch x := r.Intn(100); {
 				case x < 60:
 					g.call(g.outcome(r.Pick(70, 90)), g.draw())
@@ -880,6 +992,36 @@ func c01Gen(r *verifh.Rng) []verifh.Section {
 			g.ops = append(g.ops, "dump")
 		case 10:
 			c01ParSection(g, adv, 3, 6)
+		}
+		if i == 0 {
+			// the full matrix once per run: every entry point x every outcome kind of the request (return nil / acceptable
+			// error / other error / typed-nil error / the request's own ErrServiceUnavailable bare and wrapped / panic with a
+			// string / panic with an error value / runtime.Goexit) x every kind of context, first with successes in between
+			// (nothing throttled: pure accounting), then back to back (rejections and fallbacks under every kind)
+			for pass := 0; pass < 2; pass++ {
+				for _, entry := range []string{"do", "doacc", "dofb", "dofbacc"} {
+					for _, o := range []string{"ok", "erra", "erru", "tnil", "brk", "wbrk", "panic", "panicerr", "goexit"} {
+						for _, cx := range []string{"none", "live", "deadline", "cancelmid", "done", "expired"} {
+							u := int64(0)
+							if pass == 1 {
+								u = g.draw()
+							}
+							g.callE(entry, o, cx, u)
+							if pass == 0 {
+								for q := 0; q < 12; q++ {
+									g.callE("do", "ok", "none", 0)
+								}
+							}
+						}
+					}
+				}
+				for _, cx := range []string{"none", "live", "deadline", "done", "expired"} {
+					g.pickName()
+					g.emit(fmt.Sprintf("allow ctx=%s u=%d", cx, g.draw()))
+					g.allows++
+				}
+				adv(c01Win + 1)
+			}
 		}
 		switch kind {
 		case 0:
